@@ -20,9 +20,25 @@ NA == 9999
 ShollOK(o, v, P, pos, r) == IF o.exact = 1 THEN v = ShollCount(P, pos, r[1], r[2]) ELSE ShollLo(P, pos, r[1], r[2]) <= v /\ v <= ShollHi(P, pos, r[1], r[2])
 Flip(a) == <<-a[1], a[2], a[3]>>
 AngOK(obs, a) == IF a[2] = 0 \/ a[3] = 0 THEN TRUE ELSE obs # NA /\ CloseCos(obs, a)          \* zero vectors: the angle is undefined, nothing is claimed
+\* the long-stem stage: the tree behind a stem of 2 * 10^5 lattice units; node ids of the observation are those of StemP(c.P)
+WhyStem(c, o) ==
+    LET P == StemP(c.P)  pos == StemPos(c.P, c.pos)  B == BranchSet(P)  N == Nodes(P) IN
+    IF o.err # "" THEN "raised-" \o o.err
+    ELSE IF ~LatticeOK(P, pos) THEN "MACHINERY-not-a-lattice-tree"
+    ELSE IF ~CloseL(o.length, TreeLength(P, pos)) THEN "tree-length"
+    ELSE IF ~CloseL(o.length_fe, TreeLength(P, pos)) THEN "extractor-length"
+    ELSE IF ~CloseL(o.branch_len_sum, TreeLength(P, pos)) THEN "length-is-not-the-sum-of-branch-lengths"
+    ELSE IF ~HasAll(o.branches, { b[Len(b)] : b \in B }) THEN "branch-set"
+    ELSE IF \E b \in B : LET e == Entry(o.branches, b[Len(b)]) IN e[2] # b[1] \/ ~CloseL(e[3], SeqLength(P, pos, b)) THEN "branch-length"
+    ELSE IF ~HasAll(o.paths, Tips(P)) THEN "path-set"
+    ELSE IF \E t \in Tips(P) : ~CloseL(Entry(o.paths, t)[2], PathDistance(P, pos, t)) THEN "path-length"
+    ELSE IF \E i \in N : ~CloseL(o.lm_node[i + 1][1], PathDistance(P, pos, i)) THEN "lmeasure-path-distance"
+    ELSE IF \E b \in B : LET e == Entry(o.lm_branch, b[Len(b)]) IN ~CloseL(e[2], SeqLength(P, pos, b)) \/ e[4] # Len(b) - 1 THEN "lmeasure-branch-pathlength-or-fragmentation"
+    ELSE ""
 Why(c, o) ==
     LET P == c.P  pos == c.pos  B == BranchSet(P)  N == Nodes(P) IN
-    IF o.err # "" THEN "raised-" \o o.err
+    IF c.kind = "stem" THEN WhyStem(c, o)
+    ELSE IF o.err # "" THEN "raised-" \o o.err
     ELSE IF ~LatticeOK(P, pos) THEN "MACHINERY-not-a-lattice-tree"
     \* counts
     ELSE IF o.cnt # <<Len(P), Cardinality(Tips(P)), Cardinality(Furcs(P)), Cardinality(B), Cardinality(Paths(P))>> THEN "feature-counts"
